@@ -161,6 +161,9 @@ class _ModificationStore:
         patches should be applied.
         """
 
+        # The modifications are walked more than once.
+        modifications = tuple(modifications)
+
         instructions = None
         if isinstance(block, gtirb.CodeBlock) and any(
             modification.scope._needs_disassembly()
